@@ -309,3 +309,26 @@ pub fn wait_with_deadline(child: &mut std::process::Child, secs: u64) -> Option<
         std::thread::sleep(std::time::Duration::from_millis(20));
     }
 }
+
+/// Run an executor under `catch`: whatever panics inside it outside the executors' own guarded
+/// client calls is reported as a `panic` violation of the run (a step-budget unwind as
+/// `no-progress`).
+pub fn guarded_execute(
+    f: fn(&crate::trace::Trace, &mut crate::stats::Stats, bool) -> crate::trace::Outcome,
+    t: &crate::trace::Trace,
+    st: &mut crate::stats::Stats,
+    record: bool,
+) -> crate::trace::Outcome {
+    match catch(|| f(t, st, record)) {
+        Ok(o) => o,
+        Err(c) => {
+            let (class, detail) = match c {
+                Caught::Panic(m) => ("panic", format!("the code under test panicked while the harness evaluated this input outside a client call (one-shot reference, coverage shadow or final comparison): {m}")),
+                Caught::NoProgress => ("no-progress", "the code under test did not return within the step budget outside a client call".to_string()),
+            };
+            let mut h = crate::rng::Fnv::default();
+            h.str(class);
+            crate::trace::Outcome { violation: Some(crate::trace::Violation { class: class.into(), detail }), hash: h.0, ..Default::default() }
+        }
+    }
+}
